@@ -693,8 +693,9 @@ func generateAltVirtualHostsForKubernetesService(hostname string, port int, prox
 			// Invalid domain
 			return nil
 		}
-		if hostname[ns+1:ih] == before {
-			// Same namespace
+		if hostname[ns+1:ih] == before && hostname[:ns] != "*" {
+			// Same namespace. A wildcard host ("*.ns.svc.domain") has no short name: "*" would be the
+			// catch-all domain, which Envoy permits only once per route configuration.
 			if port == portNoAppendPortSuffix {
 				return []string{
 					hostname[:ns],
